@@ -52,13 +52,20 @@ def main():
     rc, out = sh('git -C /repo apply %s' % patch)
     caught = {}
     try:
-        for i in ids:
+        from concurrent.futures import ThreadPoolExecutor
+
+        def one(i):
             t = time.time()
             rc, out = sh('./check %s --tier quick' % i, cwd=V, timeout=1800)
             viol = [l for l in out.split('\n') if l.startswith('VIOLATION')]
             if rc != 0 or viol:
                 fi = [l.strip() for l in out.split('\n') if 'failing input' in l or 'no longer checks' in l]
-                caught[i] = {'rc': rc, 'violation': viol[:1], 'what': fi[:1], 's': round(time.time() - t, 1)}
+                return i, {'rc': rc, 'violation': [v.split('replay=')[0] + ('no-failing-input-found' if 'no-failing' in v else 'failing-input') for v in viol[:1]], 'what': [f[:260] for f in fi[:1]], 's': round(time.time() - t, 1)}
+            return i, None
+        with ThreadPoolExecutor(max_workers=10) as ex:
+            for i, r in ex.map(one, ids):
+                if r:
+                    caught[i] = r
     finally:
         sh('git -C /repo checkout -- .')
     res['caught_by'] = caught
